@@ -92,7 +92,8 @@ class BracketNode(IndentationNode):
             #           )
             expected_end_indent = leaf.end_pos[1]
             if '\t' in config.indentation:
-                self.indentation = None
+                # Tabs cannot align to a column, expect one more level.
+                self.indentation = parent_indentation + config.indentation
             else:
                 self.indentation = ' ' * expected_end_indent
             self.bracket_indentation = self.indentation
@@ -130,7 +131,7 @@ class BackslashNode(IndentationNode):
 
             if '\t' in config.indentation:
                 # TODO unite with the code of BracketNode
-                self.indentation = None
+                self.indentation = parent_indentation + config.indentation
             else:
                 # If the backslash follows the equals, use normal indentation
                 # otherwise it should align with the equals.
